@@ -452,6 +452,10 @@ class EstimationStep(ExecutionStep):
     def from_dict(cls, d: dict[str, Any]) -> EstimationStep:
         d = dict(d)
         ExecutionStep._adjust_dict(d)
+        # NOTE: Sequences become lists when passing through JSON
+        for key in ('derivatives', 'predictions', 'residuals'):
+            if isinstance(d.get(key), list):
+                d[key] = tuple(d[key])
         return cls(**d)
 
     def __repr__(self):
